@@ -37,6 +37,7 @@ type Disagreement struct {
 	Case   string   `json:"case"`
 	Replay string   `json:"replay"`
 	Diffs  []string `json:"diffs"`
+	Cats   []string `json:"cats"`
 }
 
 // Judgement is a property verdict on the implementation's own output (independent of the model).
@@ -105,6 +106,8 @@ func init() {
 		out := fs.String("out", "", "summary JSON path")
 		workers := fs.Int("j", 16, "parallel workers")
 		keep := fs.Bool("keep", false, "keep the scratch module")
+		prop := fs.String("prop", "", "property whose judges run")
+		only := fs.String("only", "", "replay file: run just that case")
 		_ = fs.Parse(args)
 
 		t0 := time.Now()
@@ -116,11 +119,16 @@ func init() {
 			defer os.RemoveAll(root)
 		}
 		var cases []GCase
-		if *corpus != "" {
-			cases = append(cases, loadCorpus(*corpus)...)
-		}
-		for i := 0; i < *n; i++ {
-			cases = append(cases, GenCase(*seed, i, *profile))
+		judgeProp = *prop
+		if *only != "" {
+			cases = loadCorpusFile(*only)
+		} else {
+			if *corpus != "" {
+				cases = append(cases, loadCorpus(*corpus)...)
+			}
+			for i := 0; i < *n; i++ {
+				cases = append(cases, GenCase(*seed, i, *profile))
+			}
 		}
 		for _, c := range cases {
 			if err := writeCase(root, c); err != nil {
@@ -167,7 +175,7 @@ func init() {
 					}
 					if len(rep.Diffs) > 0 {
 						p := saveReplay(*replayDir, "disagree-"+c.Name, c, &rep, nil)
-						sum.Disagreements = append(sum.Disagreements, Disagreement{Case: c.Name, Replay: p, Diffs: rep.Diffs})
+						sum.Disagreements = append(sum.Disagreements, Disagreement{Case: c.Name, Replay: p, Diffs: rep.Diffs, Cats: rep.Cats})
 					} else if rep.Skipped == "" || rep.Skipped == "back-half-error" {
 						sum.Agree++
 					}
@@ -240,22 +248,28 @@ func loadCorpus(dir string) []GCase {
 		if !strings.HasSuffix(e.Name(), ".json") {
 			continue
 		}
-		b, err := os.ReadFile(filepath.Join(dir, e.Name()))
-		if err != nil {
-			continue
-		}
-		var obj struct {
-			Files map[string]string `json:"files"`
-			Setup string            `json:"setup"`
-		}
-		if json.Unmarshal(b, &obj) != nil || obj.Setup == "" {
-			continue
-		}
-		out = append(out, GCase{Name: strings.TrimSuffix(e.Name(), ".json"), Files: obj.Files, Setup: obj.Setup,
-			Features: []string{"corpus"}, Profile: "corpus"})
+		out = append(out, loadCorpusFile(filepath.Join(dir, e.Name()))...)
 	}
 	return out
 }
+
+func loadCorpusFile(path string) []GCase {
+	b, err := os.ReadFile(path)
+	if err != nil {
+		return nil
+	}
+	var obj struct {
+		Files map[string]string `json:"files"`
+		Setup string            `json:"setup"`
+	}
+	if json.Unmarshal(b, &obj) != nil || obj.Setup == "" {
+		return nil
+	}
+	return []GCase{{Name: strings.TrimSuffix(filepath.Base(path), ".json"), Files: obj.Files, Setup: obj.Setup,
+		Features: []string{"corpus"}, Profile: "corpus"}}
+}
+
+var judgeProp string
 
 func fatal(err error) {
 	fmt.Fprintln(os.Stderr, "harness:", err)
